@@ -215,8 +215,9 @@ pub fn c02(tier: &str) -> ! {
         run_crash(&mut rep, "generated<=4", generated_histories(&["T300n", "M2"], 4), spec(false), budget(tier, 40, 2400), own);
     } else {
         run_crash(&mut rep, "covering", covering_histories(&all_cfgs), spec(false), budget(tier, 20, 0), own);
-        run_crash(&mut rep, "covering+nested", covering_histories(&["M2"]), spec(true), budget(tier, 15, 0), own);
-        run_crash(&mut rep, "generated<=2", generated_histories(&all_cfgs, 2), spec(false), budget(tier, 20, 0), own);
+        run_crash(&mut rep, "covering+nested", covering_histories(&["M2", "T300n"]), spec(true), budget(tier, 20, 0), own);
+        run_crash(&mut rep, "generated<=3", generated_histories(&all_cfgs, 3), spec(false), budget(tier, 25, 0), own);
+        run_crash(&mut rep, "generated<=2+nested", generated_histories(&all_cfgs, 2), spec(true), budget(tier, 15, 0), own);
     }
     for a in CRASH_ASSUMPTIONS {
         rep.assume(a);
@@ -240,8 +241,8 @@ pub fn c16(tier: &str) -> ! {
         run_crash(&mut rep, "covering", covering_histories(&all_cfgs), spec.clone(), budget(tier, 40, 1500), own);
         run_crash(&mut rep, "generated<=3", generated_histories(&all_cfgs, 3), spec, budget(tier, 40, 2400), own);
     } else {
-        run_crash(&mut rep, "covering", covering_histories(&["T300", "M2n"]), spec.clone(), budget(tier, 25, 0), own);
-        run_crash(&mut rep, "generated<=2", generated_histories(&all_cfgs, 2), spec, budget(tier, 25, 0), own);
+        run_crash(&mut rep, "covering", covering_histories(&all_cfgs), spec.clone(), budget(tier, 25, 0), own);
+        run_crash(&mut rep, "generated<=3", generated_histories(&all_cfgs, 3), spec, budget(tier, 30, 0), own);
     }
     for a in CRASH_ASSUMPTIONS {
         rep.assume(a);
@@ -400,8 +401,8 @@ pub fn c08(tier: &str) -> ! {
         run_faults(&mut rep, "generated<=3", generated_histories(&["T300", "M2n"], 3), class::PROPERTY_SET, budget(tier, 40, 2400));
         run_faults(&mut rep, "covering+reads", covering_histories(&["M2"]), class::ALL, budget(tier, 40, 1200));
     } else {
-        run_faults(&mut rep, "covering", covering_histories(&["T300", "M2n"]), class::PROPERTY_SET, budget(tier, 30, 0));
-        run_faults(&mut rep, "generated<=2", generated_histories(&["T300", "M2n"], 2), class::PROPERTY_SET, budget(tier, 20, 0));
+        run_faults(&mut rep, "covering", covering_histories(&["T300", "T300n", "M2", "M2n"]), class::PROPERTY_SET | class::LIST, budget(tier, 30, 0));
+        run_faults(&mut rep, "generated<=3", generated_histories(&["T300", "M2n"], 3), class::PROPERTY_SET, budget(tier, 25, 0));
     }
     rep.assume("a failing call has no effect on the file (fail-before semantics); one fault per execution, either that single call (once) or that call and all later ones of the counted classes (sticky)");
     rep.assume("counted call classes: create, write/append, rename, remove, open-for-read, size (thorough adds list and, for one configuration, handle reads and flush)");
